@@ -195,3 +195,76 @@ pub fn private_home(work: &str, tag: &str) -> String {
     }
     dir
 }
+
+/// Outcome of re-executing one case in a sacrificial child process (`vcheck <prop> --replay f`).
+#[derive(Debug, Clone)]
+pub enum ChildOutcome {
+    Held,
+    Violated(Vec<String>),
+    /// killed by this signal (11 = SIGSEGV, 6 = SIGABRT: stack overflow / allocation failure)
+    Died(i32),
+    /// generous wall-clock watchdog fired — inconclusive by itself
+    Timeout,
+    Error(String),
+}
+
+/// Run one case of `prop` in a fresh process of this same binary. Used where the code under
+/// test may abort the process (stack overflow escapes catch_unwind).
+pub fn isolated(prop: &str, case: &serde_json::Value, work: &str, timeout_s: u64) -> ChildOutcome {
+    use std::os::unix::process::ExitStatusExt;
+    static N: std::sync::atomic::AtomicU64 = std::sync::atomic::AtomicU64::new(0);
+    let n = N.fetch_add(1, std::sync::atomic::Ordering::Relaxed);
+    let dir = format!("{work}/iso-{}-{n}", std::process::id());
+    if std::fs::create_dir_all(&dir).is_err() {
+        return ChildOutcome::Error("mkdir".into());
+    }
+    let rp = format!("{dir}/case.json");
+    let out = format!("{dir}/out.json");
+    let _ = std::fs::write(&rp, serde_json::to_vec(&serde_json::json!({"property": prop, "replay": case})).unwrap_or_default());
+    let exe = match std::env::current_exe() {
+        Ok(e) => e,
+        Err(e) => return ChildOutcome::Error(e.to_string()),
+    };
+    let child = std::process::Command::new(exe)
+        .args([prop, "--replay", &rp, "--out", &out])
+        .stdout(std::process::Stdio::null())
+        .stderr(std::process::Stdio::null())
+        .spawn();
+    let mut child = match child {
+        Ok(c) => c,
+        Err(e) => return ChildOutcome::Error(e.to_string()),
+    };
+    let t0 = std::time::Instant::now();
+    let status = loop {
+        match child.try_wait() {
+            Ok(Some(s)) => break Some(s),
+            Ok(None) => {
+                if t0.elapsed().as_secs() > timeout_s {
+                    let _ = child.kill();
+                    let _ = child.wait();
+                    break None;
+                }
+                std::thread::sleep(std::time::Duration::from_millis(5));
+            }
+            Err(_) => break None,
+        }
+    };
+    let res = match status {
+        None => ChildOutcome::Timeout,
+        Some(s) => {
+            if let Some(sig) = s.signal() {
+                ChildOutcome::Died(sig)
+            } else {
+                match std::fs::read(&out).ok().and_then(|b| serde_json::from_slice::<serde_json::Value>(&b).ok()) {
+                    Some(v) => {
+                        let sigs: Vec<String> = v["sig_counts"].as_object().map(|m| m.keys().cloned().collect()).unwrap_or_default();
+                        if sigs.is_empty() { ChildOutcome::Held } else { ChildOutcome::Violated(sigs) }
+                    }
+                    None => ChildOutcome::Error(format!("no result, exit {:?}", s.code())),
+                }
+            }
+        }
+    };
+    let _ = std::fs::remove_dir_all(&dir);
+    res
+}
